@@ -50,6 +50,16 @@ def _safe_markup(text, template="{}"):  # type: (str, str) -> str
     return text
 
 
+def _tagged(tag, text):  # type: (str, str) -> str
+    """
+    Returns the text inside the given style tag. Backslashes at the end of the
+    text stay outside: right in front of the closing tag they would escape it.
+    """
+    body = text.rstrip("\\")
+
+    return "<{0}>{1}</{0}>{2}".format(tag, body, text[len(body) :])
+
+
 def _write_line(io, line):  # type: (IO, str) -> None
     """
     Writes a line of the report. What was written to the I/O before may have left
@@ -57,9 +67,18 @@ def _write_line(io, line):  # type: (IO, str) -> None
     fine by itself, and the line is written without its tags.
     """
     try:
-        io.write_line(line)
+        _write_whole_line(io, line)
     except ValueError:
-        io.write_line(_strip_tags(line))
+        _write_whole_line(io, _strip_tags(line))
+
+
+def _write_whole_line(io, line):  # type: (IO, str) -> None
+    if line.endswith("\\"):
+        # The formatter looks at the last character of a text to decide whether
+        # a tag at its very beginning is escaped: the line break goes in as text
+        io.write(line + "\n")
+    else:
+        io.write_line(line)
 
 
 class Highlighter(object):
@@ -320,8 +339,8 @@ class ExceptionTrace(object):
         if simple:
             _write_line(
                 io,
-                "<error>{}</error>".format(
-                    _safe_markup(str(self._exception), "<error>{}</error>")
+                _tagged(
+                    "error", _safe_markup(str(self._exception), "<error>{}</error>")
                 ),
             )
             return
@@ -369,7 +388,7 @@ class ExceptionTrace(object):
             exception_message = _strip_tags(exception_message)
 
         exception_message = exception_message.replace("\n", "\n  ")
-        self._render_line(io, "<b>{}</b>".format(exception_message))
+        self._render_line(io, _tagged("b", exception_message))
 
         current_frame = inspector.frames[-1]
         self._render_snippet(io, current_frame)
